@@ -44,7 +44,7 @@ Fixpoint sem_trees (st : sstate) (ts : list node) (gs : list gres) : sstate * Z 
   | [], [] => (st, 0)
   | t :: ts', g :: gs' =>
       match g with
-      | GRefused | GPanic => (st, 6)
+      | GRefused | GPanic | GHang => (st, 6)
       | _ =>
           let (st', c) := sem_tree st t in
           match c with
